@@ -18,7 +18,9 @@ class C15:
     rule = ("histories of add / get / remove / time-passes steps over 1-200 dialog keys and 2-5 backends against the real "
             "DialogBasedBackend (time passes by shifting the stored instants back, see DESIGN 3.1); timeouts 1-30 s, Expires "
             "0..2^31-1, look-ups probed at <=60% and >=100%+50ms of a lifetime, sweeps provoked by adds after long pauses. "
-            "Non-trivial = a history in which at least one look-up hits and at least one misses after expiry; distinct by content hash.")
+            "Non-trivial = a history in which at least one look-up hits and at least one misses after expiry; distinct by content hash. "
+            "Plus dialog histories through the REAL proxy (whole-proxy engine) for the proxy-level triggers of early termination: BYE "
+            "answered with any final status, NOTIFY terminated / active / terminated;reason=..., then further requests of the same dialog.")
     trusted = ["time.Time comparison/Add as integer nanoseconds; the clock is read once per operation in the model (Go reads it up to three times; probes keep a 50 ms margin)"]
     assumptions = ["time never goes backwards between operations; Expires <= 2^31-1 (no int64 overflow of the nanosecond arithmetic)"]
 
@@ -88,7 +90,23 @@ class C15:
                                          describe=lambda c, io, mo: "timeout %s s, %s ops" % (c.toks[0].decode(), c.toks[1].decode()))
         cov["samples"] = lib.sample_of(cases[nc + 1:], 2)
         cov["corpus_cases"] = nc
-        return {"coverage": cov, "failures": failures}
+        # ---- the proxy-level triggers of early termination, through the REAL proxy (whole-proxy engine): a BYE answered by
+        #      the backend with ANY final status, a NOTIFY with Subscription-State terminated / active / terminated;reason=,
+        #      followed by more requests bearing the dialog's identifiers (load-balanced like new ones); the history judge of
+        #      C04 keeps the set of live pins from the observations alone
+        import proxygen as pg, proxyflows as pf, proxycheck as pc
+        nw = 120 if tier == "quick" else 3000
+        blocks = pg.alloc_blocks(nw)
+        wcases = []
+        for i in range(nw):
+            f = pf.dialog_history(rng, blocks[i], n_dialogs=rng.randrange(1, 5))
+            wcases.append(f.s.case("t%d" % i, {"kind": "termination-history", "backends": len(f.backends)}))
+        wcov, wfail = pc.explore(ctx, "C15", wcases, ["proxy-C04"], nontrivial=lambda c, ni: sum(1 for o, _ in ni if o) >= 3)
+        cov["proxy_level"] = wcov
+        cov["evaluations"] += wcov["evaluations"]
+        cov["distinct_nontrivial"] += wcov["distinct_nontrivial"]
+        cov["traces_validated_against_impl"] += wcov["traces_validated_against_impl"]
+        return {"coverage": cov, "failures": failures + wfail}
 
 
 PROP = C15()
